@@ -2,6 +2,7 @@
    interpreter: a program without absolute-time commands started L ticks later does the same, L ticks later.
    Self-contained on purpose (the few list / track bookkeeping facts are restated locally, prefix t_). *)
 From Sakura.Model Require Import Base Cursor Length Event Song Token LoopMachine LexCore RunCore Tie.
+From Sakura.Proofs Require Import ExtP.
 From Coq Require Import Lia.
 Open Scope Z_scope.
 
@@ -250,7 +251,8 @@ Fixpoint shiftable (t : tok) : bool :=
   | TLineNo _ | TNoteN _ _ _ _ _ _ | TRest _ _ | TLength _ | TOctave _ | TOctaveRel _ | TOctaveOnce _
   | TVelocity _ _ | TVelocityRel _ | TQLen _ | TQLenRel _ | TTiming _ | TLoopBegin _ | TLoopBreak | TLoopEnd
   | THarmonyBegin | THarmonyEnd _ _ _ | TChannel _ | TVoice _ | TKeyFlag _ | TKeyShift _ | TTrackKey _ | TComment
-  | TTimeSignature _ | TMeasureShift _ | TTempo _ | TVAdd _ | TQAdd _ | TTieMode _ => true
+  | TTimeSignature _ | TMeasureShift _ | TTempo _ | TVAdd _ | TQAdd _ | TTieMode _
+  | TCC _ _ | TPitchBend _ _ | TRpnCmd _ _ _ _ | TRpnDirect _ _ => true     (* events at the pointer of the current track *)
   | _ => false
   end.
 
@@ -453,6 +455,18 @@ Section StepShift.
       + cbn [tr_push_event tr_set_events tr_set_timepos tr_events]. rewrite app_length. lia.
   Qed.
 
+  (* the command arms that add events at the pointer of the current track *)
+  Lemma add_events_shift f : (forall tp ch, f (tp + L) ch = map (shift_ev L) (f tp ch)) ->
+    shifted_res L n (Ok (add_events s f)) (Ok (add_events s' f)).
+  Proof.
+    intros Hf. rewrite !add_events_eq, ct'.
+    cbn [shift_track tr_set_events tr_set_timepos tr_timepos tr_channel]. rewrite Hf.
+    apply shifted_upd_cur; try assumption.
+    - unfold tr_push_events, shift_track. cbn [tr_set_events tr_set_timepos tr_events tr_timepos].
+      rewrite shift_tail_app by exact Hn. reflexivity.
+    - unfold tr_push_events. cbn [tr_set_events tr_events]. rewrite app_length. lia.
+  Qed.
+
   Hypothesis Hec : respects.
 
   Theorem step_shift t : shiftable t = true -> shifted_res L n (step_song ec t s) (step_song ec t s').
@@ -603,6 +617,12 @@ Section StepShift.
     - (* TVAdd *) apply (shifted_ok L n h (s_set_adds s arg (s_q_add s))); assumption.
     - (* TQAdd *) apply (shifted_ok L n h (s_set_adds s (s_v_add s) arg)); assumption.
     - (* TTieMode *) apply shifted_upd_cur; try assumption; [track_eq|len_ok].
+    - (* TCC *) apply add_events_shift. reflexivity.
+    - (* TPitchBend *) apply add_events_shift. reflexivity.
+    - (* TRpnCmd *) apply add_events_shift. destruct nrpn; reflexivity.
+    - (* TRpnDirect *) unfold exec_rpn_direct, runtime_error. change (s_lineno s') with (s_lineno s).
+      destruct args as [|a [|b [|c [|d l]]]]; try apply add_log_shifted_ok.
+      apply add_events_shift. destruct nrpn; reflexivity.
   Qed.
   End One.
 
